@@ -29,7 +29,10 @@ pub uninterp spec fn ret_fits(expected: TypeLayout, supplied: TypeLayout, n: &No
 pub uninterp spec fn may_be_nil(t: TypeLayout) -> bool;
 pub trait VerifOpt { fn is_optional(&self) -> (bool, Option<&TypeLayout>); }
 impl VerifOpt for TypeLayout { #[verifier::external_body] fn is_optional(&self) -> (r: (bool, Option<&TypeLayout>)) ensures r.0 == may_be_nil(*self) { unimplemented!() } }
-pub struct ReturnStatement(pub Option<Value>);
+pub struct ReturnStatement { pub value: Option<Value>, pub ends_module: bool }
+// the statement stands inside a function or method (some enclosing scope is a function scope) -- otherwise it is top-level code of its file
+pub uninterp spec fn inside_function(n: &Node) -> bool;
+#[verifier::external_body] pub fn is_inside_function(n: &Node) -> (r: bool) ensures r == inside_function(n) { unimplemented!() }
 pub fn first_child(n: &Node) -> (r: Option<Node>) ensures node_children(n).len() == 0 ==> r is None, node_children(n).len() > 0 ==> r == Some(node_children(n)[0]) { let mut c = children(n); c.next() }
 """
 
@@ -41,6 +44,7 @@ def build(repo):
     b = translate(f["body"], [
         Rule("R10", "input . user_data ( ) . mark_should_return_as_completed ( ) ;", "mark_completed ( ud ) ;", why="scope stack as explicit state (R10)"),
         Rule("R6", "input . children ( ) . next ( )", "first_child ( & input )", why="pest API abstract"),
+        Rule("R6", "input . user_data ( ) . is_inside_function ( )", "is_inside_function ( & input )", why="scope query abstract"),
         Rule("R6", "input . user_data ( ) . get_return_type ( )", "get_return_type ( & input )", why="enclosing function's declared return status (abstract)"),
         Rule("R3", "return Err ( vec ! [ new_err ( $$a ) ] ) ;", "return Err ( VErr ) ;", why="diagnostic construction dropped (that a diagnostic IS returned is kept)"),
         Rule("R6", "Self :: value ( value_node ) ?", "parse_value ( value_node ) ?", why="sub-parser abstract"),
@@ -59,15 +63,17 @@ pub fn return_statement(input: Node, ud: &mut UD) -> (r: Result<ReturnStatement,
         marked(final(ud)),
         // wants a value, gets none / wants none, gets one: diagnostics
         (node_children(&input).len() == 0 && expected_return(&input) is Some) ==> r is Err,
-        (node_children(&input).len() == 0 && expected_return(&input) is None) ==> r is Ok && r->Ok_0.0 is None,
+        (node_children(&input).len() == 0 && expected_return(&input) is None) ==> r is Ok && r->Ok_0.value is None
+            // C11: a bare `return` in the top-level code of a file ENDS THE MODULE'S CODE (the importer gets the module), anywhere else it leaves a function
+            && r->Ok_0.ends_module == !inside_function(&input),
         (node_children(&input).len() > 0 && expected_return(&input) is None) ==> r is Err,
         // wants a value, gets one: accepted only if its type passed the STRICT compatibility test against the declared return type (D86: with the
         // optional-unwrap leniency a `[int?...]` was returned from `-> [int...]`)
-        (r is Ok && node_children(&input).len() > 0) ==> expected_return(&input) is Some && r->Ok_0.0 is Some
-            && type_of(&r->Ok_0.0->Some_0, the_class(&input)) is Some
-            && ret_fits(expected_return(&input)->Some_0, resolved(type_of(&r->Ok_0.0->Some_0, the_class(&input))->Some_0), &input, false)
+        (r is Ok && node_children(&input).len() > 0) ==> expected_return(&input) is Some && r->Ok_0.value is Some && !r->Ok_0.ends_module
+            && type_of(&r->Ok_0.value->Some_0, the_class(&input)) is Some
+            && ret_fits(expected_return(&input)->Some_0, resolved(type_of(&r->Ok_0.value->Some_0, the_class(&input))->Some_0), &input, false)
             // ... and a value that may be nil is never accepted where the declared type does not admit nil (`return x`, x: int?, from `-> int`: D40)
-            && !(may_be_nil(resolved(type_of(&r->Ok_0.0->Some_0, the_class(&input))->Some_0)) && !may_be_nil(expected_return(&input)->Some_0)),
+            && !(may_be_nil(resolved(type_of(&r->Ok_0.value->Some_0, the_class(&input))->Some_0)) && !may_be_nil(expected_return(&input)->Some_0)),
 {{
 {render(b, 1)}
 }}
